@@ -293,11 +293,12 @@ def check_point_nonresult(case, k, n, ref, out, acc):
     if hres["status"] == "running":
         acc.violation({"mech": "resumed_handler_never_finishes", "unpersisted_step_consequence_at_crash": bool(missing), "crash_after": ticks[-1]["type"]},
                       f"crash after persisted tick {k} of a failing run: handler still running 300 virtual s after the restart; unpersisted consequences {missing}", wit)
-    elif case["mode"] == "cancel" and hres["status"] == "completed" and not hres["error"]:
+    elif case["mode"] in ("cancel", "timeout") and hres["status"] == "completed" and not hres["error"]:
+        # (same for the workflow timeout: its tick was not among the k persisted ones, the timer starts afresh after the restart)
         # tie order among simultaneous tasks differed from the reference run: in THIS run the k-th persisted tick came before the
         # cancel request was reduced, so the cancellation died with the process and nobody repeats it after the restart; the resumed
         # run finishing normally is what the property asks for (false alarm found by the own sweep, VERIF_SEED=5)
-        acc.note("cancel_request_not_persisted_before_crash_resumed_run_completed")
+        acc.note(case["mode"] + "_not_persisted_before_crash_resumed_run_completed")
     elif hres["status"] != r["status"] or hres["error"] != r["error"]:
         acc.violation({"mech": "resumed_handler_wrong_status", "status": hres["status"], "mode": case["mode"]},
                       f"crash after tick {k}: handler ended as {hres}, uninterrupted run ended as {r}", wit)
